@@ -51,6 +51,13 @@ func (p *pairField) ReadFrom(r io.Reader) (int64, error) {
 	return pk.Tuple{&p.A, &p.B}.ReadFrom(r)
 }
 
+// voidField is an element that occupies no bytes on the wire (like an Opt whose flag is false, or an
+// empty Tuple): an array of them is a bare length prefix.
+type voidField struct{}
+
+func (voidField) WriteTo(io.Writer) (int64, error)   { return 0, nil }
+func (*voidField) ReadFrom(io.Reader) (int64, error) { return 0, nil }
+
 type optString = pk.Option[pk.String, *pk.String]
 
 // ---- reference encoding --------------------------------------------------------------------
@@ -107,6 +114,7 @@ func (f F) wire(w *wire.W) {
 	case "pair":
 		w.VarInt(int32(f.I))
 		w.String(f.S)
+	case "void":
 	default:
 		panic("c06: wire " + f.K)
 	}
@@ -165,6 +173,8 @@ func (f F) value() any {
 		return o
 	case "pair":
 		return pairField{A: pk.VarInt(f.I), B: pk.String(f.S)}
+	case "void":
+		return voidField{}
 	}
 	panic("c06: value " + f.K)
 }
@@ -218,6 +228,10 @@ func (f F) encoder() pk.FieldEncoder {
 		v := gm.Build(a.Dyn, a.Elems[0])
 		if f.I == 1 {
 			return pk.NBT(nbt.RawMessage{Type: f.Tree.Type, Data: rn.EncodePayload(f.Tree)})
+		}
+		if (v.Kind() == reflect.Slice || v.Kind() == reflect.Map) && v.Len() == 0 && f.U == 1 {
+			// a typed nil slice / map is an empty collection (not "no NBT")
+			return pk.NBT(reflect.Zero(v.Type()).Interface())
 		}
 		return pk.NBT(v.Interface())
 	case "ary":
@@ -633,7 +647,7 @@ func preClass(f F) string {
 
 var leafKinds = []string{"bool", "byte", "ubyte", "short", "ushort", "int", "long", "float", "double", "string", "varint", "varlong",
 	"position", "angle", "uuid", "bytearray", "bitset", "fixedbitset", "nbt", "option"}
-var elemKinds = []string{"varint", "string", "bytearray", "uuid", "position", "long", "option", "pair", "bool", "double"}
+var elemKinds = []string{"varint", "string", "bytearray", "uuid", "position", "long", "option", "pair", "bool", "double", "void"}
 var lenKinds = []string{"varint", "varlong", "byte", "ubyte", "short", "ushort", "int", "long"}
 
 func genPos(t *rapid.T, bits uint, label string) int64 {
@@ -701,6 +715,12 @@ func genLeaf(t *rapid.T, k string) F {
 	case "nbt":
 		f.Tree = gen.Tree(t, gen.TreeOpts{MaxDepth: 3, MaxNodes: 10, NoBigStr: true})
 		f.I = int64(rapid.IntRange(0, 1).Draw(t, "nbt_raw"))
+		f.U = uint64(rapid.IntRange(0, 1).Draw(t, "nbt_nilroot"))
+		if rapid.IntRange(0, 9).Draw(t, "nbt_emptyroot") == 4 {
+			// roots that are empty collections (typed nil when nbt_nilroot is set)
+			f.Tree = rapid.SampledFrom([]*rn.Tag{{Type: rn.Compound}, {Type: rn.List, Elem: rn.End}, {Type: rn.LongArray}, {Type: rn.IntArray}, {Type: rn.ByteArray}}).Draw(t, "emptyroot")
+			f.Tree = &rn.Tag{Type: f.Tree.Type, Elem: f.Tree.Elem}
+		}
 		if f.I == 0 {
 			// encoded from a Go map: key order is unspecified, so keep compounds to one key
 			// (the byte-exact comparison needs a deterministic encoding)
